@@ -366,8 +366,11 @@ def fam_meta(ctx):
     rec = {'mode': 'nrt', 'names': ['spec_default', 'p1_d', 'spec_default_p1']}
     data = _mk('meta', rec)
     received = {}
-    fn = make_func(['p0', 'pz', 'p1'], [None, None, p1.default], [None, None, None],
-                   out_body(received, ['p0', 'pz', 'p1']))
+    # optionally one prepended argument in front (it is not a control: names and spec defaults keep their pairing)
+    pre = ctx.choose('meta_prepend', 2)
+    rec['sel'] = {'meta_prepend': pre}
+    names = (['pre'] if pre else []) + ['p0', 'pz', 'p1']
+    fn = make_func(names, [None] * (len(names) - 1) + [p1.default], [None] * len(names), out_body(received, names))
 
     class Spec:
         default = dflt
@@ -376,7 +379,8 @@ def fam_meta(ctx):
         # a spec for a parameter that HAS a default of its own (any value, zero included): the spec must not win
         default = ctx.real('spec_default_p1')
     try:
-        sd, b = sdsym.build_bytes('mt', fn, metadata={'specs': {'p0': Spec(), 'p1': Spec1()}})
+        kw = {'prepend': [7.0]} if pre else {}
+        sd, b = sdsym.build_bytes('mt', fn, metadata={'specs': {'p0': Spec(), 'p1': Spec1()}}, **kw)
     except (PathAbort, Inconclusive, Violation):
         raise
     except Exception as e:
@@ -488,6 +492,13 @@ class _CCtx:
     def note(self, s):
         pass
 
+    def choose(self, name, n):
+        return int(self.vals.get(name, 0) or 0)
+
+    def idx(self, name, lo, hi):
+        v = self.vals.get(name)
+        return int(v) if v is not None else lo
+
     def prove(self, cond, what='', data=None):
         ok = cond if isinstance(cond, bool) else z3.is_true(z3.simplify(cond))
         if not ok:
@@ -498,7 +509,7 @@ class _CCtx:
 
 
 def replay(rec):
-    ctx = _CCtx(rec.get('values', {}))
+    ctx = _CCtx(dict(rec.get('values', {}), **rec.get('sel', {})))
     fam = rec['fam']
     try:
         if fam == 'sig':
